@@ -23,7 +23,22 @@ func (p pkgList) String() string {
 	return strings.Join(res, " ")
 }
 
+// noFiles stands in when the host passes no file system (nil): no package can be found in it.
+type noFiles struct{}
+
+func (noFiles) Open(name string) (fs.File, error) {
+	return nil, &fs.PathError{Op: "open", Path: name, Err: fs.ErrNotExist}
+}
+
+func orNoFiles(sys fs.FS) fs.FS {
+	if sys == nil {
+		return noFiles{}
+	}
+	return sys
+}
+
 func loadImports(sys fs.FS, topPkg string, top *token) (pkgList, error) {
+	sys = orNoFiles(sys)
 	packages := map[string]*token{}
 	deps := map[string]map[string]bool{}
 	todo := []string{topPkg}
@@ -108,6 +123,7 @@ func loadImports(sys fs.FS, topPkg string, top *token) (pkgList, error) {
 }
 
 func loadPackage(sys fs.FS, topPkg string) (pkgList, error) {
+	sys = orNoFiles(sys)
 	p, err := rawLoadPackage(sys, topPkg)
 	if err != nil {
 		return nil, fmt.Errorf("error in loadPackage: %w", err)
@@ -117,6 +133,7 @@ func loadPackage(sys fs.FS, topPkg string) (pkgList, error) {
 }
 
 func loadFile(sys fs.FS, fname string) (pkgList, error) {
+	sys = orNoFiles(sys)
 	p, err := rawLoadFile(sys, fname, false)
 	if err != nil {
 		return nil, fmt.Errorf("error in loadFile: %w", err)
